@@ -174,8 +174,12 @@ theorem active_unique (hA : Accepted D S) (hC : Cycle D v S run) {m b1 b2 : Nat}
     (h2 : ActiveSite D v run b2 c2) (hc2 : c2.callee = m) : c1 = c2 :=
   c01_flat D v run hC.exclSem hA.validRoot hC.methodRun (hMutex_of hA hC) hm h1 hc1 h2 hc2
 
-theorem at_most_one_active (hA : Accepted D S) (hC : Cycle D v S run) (hn : D.SitesNodup)
-    {m : Nat} (hm : D.nonexcl m = false) : (activeSites D v run m).length ≤ 1 := by
+/-- the list form of `c01_flat`, from its bare hypotheses -/
+theorem at_most_one_active_core (hExcl : ExclSem D v) (hValid : ∀ r, ValidRoot D r)
+    (hrun : MethodRunEq D v run)
+    (hMutex : ∀ t1 t2, D.isTrans t1 = true → D.isTrans t2 = true → t1 ≠ t2 →
+      run t1 = true → run t2 = true → NoImplicitConflict D t1 t2)
+    (hn : D.SitesNodup) {m : Nat} (hm : D.nonexcl m = false) : (activeSites D v run m).length ≤ 1 := by
   apply length_le_one_of_nodup_const (fun p : Nat × Call => p.2.site)
   · have hsub : List.Sublist (activeSites D v run m) D.allSites :=
       (List.filter_sublist).trans List.filter_sublist
@@ -183,7 +187,11 @@ theorem at_most_one_active (hA : Accepted D S) (hC : Cycle D v S run) (hn : D.Si
   · intro x hx y hy
     obtain ⟨ax, cx⟩ := mem_activeSites.1 hx
     obtain ⟨ay, cy⟩ := mem_activeSites.1 hy
-    rw [active_unique hA hC hm ax cx ay cy]
+    rw [c01_flat D v run hExcl hValid hrun hMutex hm ax cx ay cy]
+
+theorem at_most_one_active (hA : Accepted D S) (hC : Cycle D v S run) (hn : D.SitesNodup)
+    {m : Nat} (hm : D.nonexcl m = false) : (activeSites D v run m).length ≤ 1 :=
+  at_most_one_active_core hC.exclSem hA.validRoot hC.methodRun (hMutex_of hA hC) hn hm
 
 /-- second sentence of C01: two transactions that run together satisfy `calls_nonexclusive` for
 every method both reach -/
